@@ -2,7 +2,8 @@
    Model: Model/TyRel.v (transcription of hir::common::Ty's relations).  Every theorem
    quantifies over ALL types of the nested inductive [ty]; no pool, no size bound. *)
 From Capy Require Import Common.Util Common.Ty Model.TyRel Model.ExpectMatch Spec.TyLaws.
-From Capy Require Import Proofs.TyRelBasics Proofs.TyRelWeak Proofs.TyRelMax Proofs.TyRelWitness.
+From Capy Require Import Proofs.TyRelBasics Proofs.TyRelWeak Proofs.TyRelMax Proofs.TyRelMaxAccepts
+  Proofs.TyRelMaxOrder Proofs.TyRelWitness.
 
 (* a value of type A is accepted where A is expected *)
 Theorem C12_fit_refl : forall a, fit a a = true.
@@ -51,6 +52,21 @@ Theorem C12_max_accepts_both_full_refuted : ~ C12_max_accepts_both_full.
 Proof. exact max_accepts_both_refuted. Qed.
 Print Assumptions C12_max_accepts_both_full_refuted.
 
+(* ... and the strongest true statement: outside the exact classes of [known_max] the common
+   type accepts both operands ([max_accepts]: can_fit_into below a sum, expect_match's
+   acceptance at the top level), for all types and every well-formed ENUM_MAP *)
+Theorem C12_max_accepts_both_except_known :
+  forall m, wf_enum_map m -> forall a depth b c,
+    known_max depth a b = 0%N -> tmax m a b = Ok (Some c) -> max_accepts depth a b c = true.
+Proof. exact max_accepts_lem. Qed.
+Print Assumptions C12_max_accepts_both_except_known.
+
+(* the common type does not depend on the order of the operands, outside [known_order] *)
+Theorem C12_max_order_independent_except_known :
+  forall m a b, known_order a b = false -> tmax m a b = tmax m b a.
+Proof. exact max_order_lem. Qed.
+Print Assumptions C12_max_order_independent_except_known.
+
 (* order independence fails only through the placeholder types Unknown / AlwaysJumps *)
 Definition C12_max_order_full : Prop := forall m a b, tmax m a b = tmax m b a.
 Theorem C12_max_order_full_refuted : ~ C12_max_order_full.
@@ -65,6 +81,11 @@ Proof. vm_compute. auto. Qed.
 Example C12_ex_max :
   tmax [] (Optional (IInt 16)) (IInt 0) = Ok (Some (Optional (IInt 16))).
 Proof. vm_compute. reflexivity. Qed.
+Example C12_ex_max_hyps :
+  let a := Optional (Distinct 1 (IInt 32)) in let b := Optional (IInt 0) in
+  known_max false a b = 0%N /\ known_order a b = false /\
+  tmax [] a b = Ok (Some (Optional (Distinct 1 (IInt 32)))).
+Proof. vm_compute. auto. Qed.
 Example C12_ex_known_max :
   known_max false (Optional (Distinct 1 (IInt 32))) (Distinct 1 (IInt 32)) = 1%N.
 Proof. vm_compute. reflexivity. Qed.
